@@ -8,7 +8,7 @@ from checks import ao_common as ac
 
 PID = 'C12'
 SCHEDULE_DEPENDENT = True
-RULE = ('two real ActiveObjects, the real fabric; the first has 0-3 timed sources and 0-3 concurrent posters; stop() is '
+RULE = ('two real ActiveObjects, the real fabric; the first has 0-3 timed sources (some armed by its own handlers during a step) and 0-3 concurrent posters; stop() is '
         'called on it from a client at an arbitrary instant (idle object, mid-step, queue non-empty, the very instant a timer '
         'wakes: the scheduler decides, down to single bytecodes of stop, run_event and the timer\'s run-flag check) or from one '
         'of its own handlers; afterwards the client posts a probe event to the second object and publishes a probe it '
@@ -36,12 +36,19 @@ def generate(seed, stratum, tier):
     c0.append(['timed', 0, rng.choice(['fifo', 'lifo']), 'T%d' % slot, p * rng.choice([1, 1, 2]), rng.choice([0, 0, 5]), rng.choice([True, False]), slot])
   for _ in range(rng.randrange(0, 4)):
     c0.append([rng.choice(['post_fifo', 'post_lifo']), 0, rng.choice(['SA', 'SB'])])
+  if rng.random() < 0.35:
+    # the object arms a heartbeat from a handler: a step that is in progress when stop() is
+    # called may still create a source
+    objs[0]['react'] = {'SA': [{'op': 'timed', 'sig': 'TH', 'period': p * rng.choice([1, 2]), 'times': 0,
+                                'deferred': rng.choice([True, False]), 'kind': rng.choice(['fifo', 'lifo']), 'id': 5, 'max': 2}]}
+    c0.append(['post_fifo', 0, 'SA'])
   clients = [c0]
   if stratum == 'external':
     c0.append(['sleep', p * rng.choice([1, 2, 3])] if rng.random() < 0.6 else ['sleep', p * rng.choice([0.5, 1.5])] if rng.random() < 0.7 else ['post_fifo', 0, 'SA'])
     c0.append(['stop', 0])
   else:
-    objs[0]['react'] = {'SC': [{'op': 'stop', 'id': 9, 'max': 1}]}
+    objs[0].setdefault('react', {})
+    objs[0]['react']['SC'] = [{'op': 'stop', 'id': 9, 'max': 1}]
     c0.append(['post_fifo', 0, 'SC'])
     for _ in range(rng.randrange(0, 3)):
       c0.append(['post_fifo', 0, 'SA'])
